@@ -18,11 +18,21 @@ Arguments Refused {X} r.
 
 Inductive okind := OQuery | OMutation | OSubscription.
 
+(* one @mixin directive: its arguments as (name, value is a string literal) *)
+Definition mixin_args := list (chars * bool).
+
+(* ResultTypesGenerator._parse_mixin_arguments: every argument value must be a StringValueNode and
+   both `from` and `import` must be present *)
+Definition has_arg (n : chars) (a : mixin_args) : bool := existsb (fun p => chars_eqb (fst p) n) a.
+Definition mixin_ok (a : mixin_args) : bool :=
+  forallb snd a && has_arg (s2l "from") a && has_arg (s2l "import") a.
+Definition bad_mixins (l : list mixin_args) : bool := existsb (fun a => negb (mixin_ok a)) l.
+
 (* one operation definition, in document order:
-   o_bad_mixin : some @mixin directive met while its result types are built has an argument that is
-                 not a string literal, or lacks `from` / `import`  (_parse_mixin_arguments raises);
-   o_public    : ResultTypesGenerator.get_generated_public_names() *)
-Record op := { o_kind : okind; o_name : option chars; o_bad_mixin : bool; o_public : list chars }.
+   o_mixins : the @mixin directives met while its result types are built;
+   o_public : ResultTypesGenerator.get_generated_public_names() *)
+Record op := { o_kind : okind; o_name : option chars; o_mixins : list mixin_args; o_public : list chars }.
+Definition o_bad_mixin (o : op) : bool := bad_mixins (o_mixins o).
 
 (* base client: file name, stem (module name), class name, and whether the path is one of the four
    bundled ones (then exceptions.py is copied and its names re-exported) *)
@@ -41,13 +51,15 @@ Record summary := {
   s_frag_names : list chars;      (* fragments_definitions keys *)
   s_frag_unpacked : list chars;   (* union of get_unpacked_fragments() over the operations *)
   s_frag_mixins : list chars;     (* union of get_fragments_used_as_mixins() *)
-  s_frag_bad_mixin : bool;        (* a malformed @mixin inside some fragment definition: raised by
-                                     _add_typename_to_fragments_definitions, before any operation *)
+  s_frag_dirs : list mixin_args;  (* @mixin directives met by _add_typename_to_fragments_definitions
+                                     (fragment definitions are processed before any operation) *)
   s_frag_public : list chars;     (* FragmentsGenerator.get_generated_public_names() *)
   s_enums_public : list chars;
   s_inputs_public : list chars;
   s_has_query : bool; s_has_mutation : bool
 }.
+
+Definition s_frag_bad_mixin (s : summary) : bool := bad_mixins (s_frag_dirs s).
 
 Record package := {
   written : list chars;           (* file names in the order they are written *)
@@ -197,12 +209,18 @@ Definition dKind (e : sexp) : option okind :=
   | A "query" => Some OQuery | A "mutation" => Some OMutation | A "subscription" => Some OSubscription
   | _ => None end.
 
+Definition dArg (e : sexp) : option (chars * bool) :=
+  match e with
+  | L [n; b] => match dC n, dB b with Some n', Some b' => Some (n', b') | _, _ => None end
+  | _ => None end.
+Definition dMixin (e : sexp) : option mixin_args := dList dArg e.
+
 Definition dOp (e : sexp) : option op :=
   match e with
   | L [k; n; b; p] =>
-      match dKind k, dOpt dC n, dB b, dCs p with
+      match dKind k, dOpt dC n, dList dMixin b, dCs p with
       | Some k', Some n', Some b', Some p' =>
-          Some {| o_kind := k'; o_name := n'; o_bad_mixin := b'; o_public := p' |}
+          Some {| o_kind := k'; o_name := n'; o_mixins := b'; o_public := p' |}
       | _, _, _, _ => None end
   | _ => None end.
 
@@ -231,12 +249,12 @@ Definition dCfg (e : sexp) : option cfg :=
 Definition dSummary (e : sexp) : option summary :=
   match e with
   | L [fn; fu; fmx; fb; fp; ep; ip; hq; hm] =>
-      match dCs fn, dCs fu, dCs fmx, dB fb, dCs fp with
+      match dCs fn, dCs fu, dCs fmx, dList dMixin fb, dCs fp with
       | Some fn', Some fu', Some fmx', Some fb', Some fp' =>
           match dCs ep, dCs ip, dB hq, dB hm with
           | Some ep', Some ip', Some hq', Some hm' =>
               Some {| s_frag_names := fn'; s_frag_unpacked := fu'; s_frag_mixins := fmx';
-                      s_frag_bad_mixin := fb'; s_frag_public := fp'; s_enums_public := ep';
+                      s_frag_dirs := fb'; s_frag_public := fp'; s_enums_public := ep';
                       s_inputs_public := ip'; s_has_query := hq'; s_has_mutation := hm' |}
           | _, _, _, _ => None end
       | _, _, _, _, _ => None end
